@@ -6,6 +6,7 @@ mod common;
 mod drive_gateway;
 mod gas;
 mod gateway;
+mod operators;
 mod token;
 mod probe;
 
